@@ -73,12 +73,12 @@ Qed.
 Definition w_ephold : list label :=
   [LSpawn (UEpCreate true)] ++ runs 0 5 ++ [LSpawn (UEpClose 0)] ++ runs 1 2 ++ [LSpawn USockClose] ++ runs 2 11.
 
-Lemma ephold_refuted : forall b c d e,
-  exists s, run (mkFixes false b c d e) (init PhProto false false) w_ephold = Some s /\ bad s = [B_REF_UNDERFLOW].
+Lemma ephold_refuted : forall b c d e g,
+  exists s, run (mkFixes false b c d e g) (init PhProto false false) w_ephold = Some s /\ bad s = [B_REF_UNDERFLOW].
 Proof.
-  intros b c d e.
-  assert (H: chk (mkFixes false b c d e) (init PhProto false false) w_ephold (fun s => nat_list_eqb (bad s) [B_REF_UNDERFLOW]) = true)
-    by (destruct b, c, d, e; vm_compute; reflexivity).
+  intros b c d e g.
+  assert (H: chk (mkFixes false b c d e g) (init PhProto false false) w_ephold (fun s => nat_list_eqb (bad s) [B_REF_UNDERFLOW]) = true)
+    by (destruct b, c, d, e, g; vm_compute; reflexivity).
   apply chk_run in H as (s & Hr & Hb). exists s; split; auto.
   unfold nat_list_eqb in Hb; destruct (list_eq_dec Nat.eq_dec (bad s) [B_REF_UNDERFLOW]); [auto|discriminate Hb].
 Qed.
@@ -90,12 +90,12 @@ Definition w_epid : list label :=
   [LSpawn (UEpCreate true); LSpawn USockClose] ++ runs 0 2 ++ runs 1 4 ++ runs 0 2 ++ runs 1 6 ++ reaps 4 ++
   [LSpawn (UGetEp 0); LRun 2].
 
-Lemma epid_refuted : forall a c d e,
-  exists s, run (mkFixes a false c d e) (init PhProto false false) w_epid = Some s /\ bad s = [B_FIND_FREED].
+Lemma epid_refuted : forall a c d e g,
+  exists s, run (mkFixes a false c d e g) (init PhProto false false) w_epid = Some s /\ bad s = [B_FIND_FREED].
 Proof.
-  intros a c d e.
-  assert (H: chk (mkFixes a false c d e) (init PhProto false false) w_epid (fun s => nat_list_eqb (bad s) [B_FIND_FREED]) = true)
-    by (destruct a, c, d, e; vm_compute; reflexivity).
+  intros a c d e g.
+  assert (H: chk (mkFixes a false c d e g) (init PhProto false false) w_epid (fun s => nat_list_eqb (bad s) [B_FIND_FREED]) = true)
+    by (destruct a, c, d, e, g; vm_compute; reflexivity).
   apply chk_run in H as (s & Hr & Hb). exists s; split; auto.
   unfold nat_list_eqb in Hb; destruct (list_eq_dec Nat.eq_dec (bad s) [B_FIND_FREED]); [auto|discriminate Hb].
 Qed.
@@ -112,15 +112,15 @@ Definition ctxfini_bad (fx : fixes) (s : st) : bool :=
   match nth_error (ctxs s) 0 with Some x => n_list_eqb (c_pend x) [1%N] | None => false end &&
   match step fx s (LRun 2) with Some s' => nat_list_eqb (bad s') [B_SOCK_FREED] | None => false end.
 
-Lemma ctxfini_refuted : forall a b d e,
-  exists s, run (mkFixes a b false d e) (init PhFini true true) w_ctxfini = Some s /\
+Lemma ctxfini_refuted : forall a b d e g,
+  exists s, run (mkFixes a b false d e g) (init PhFini true true) w_ctxfini = Some s /\
             In (USockClose, C_OK, R_DESTROY) (rets s) /\ bad s = [] /\
             (exists x, nth_error (ctxs s) 0 = Some x /\ c_pend x = [1%N]) /\
-            (exists s', step (mkFixes a b false d e) s (LRun 2) = Some s' /\ bad s' = [B_SOCK_FREED]).
+            (exists s', step (mkFixes a b false d e g) s (LRun 2) = Some s' /\ bad s' = [B_SOCK_FREED]).
 Proof.
-  intros a b d e.
-  assert (H: chk (mkFixes a b false d e) (init PhFini true true) w_ctxfini (ctxfini_bad (mkFixes a b false d e)) = true)
-    by (destruct a, b, d, e; vm_compute; reflexivity).
+  intros a b d e g.
+  assert (H: chk (mkFixes a b false d e g) (init PhFini true true) w_ctxfini (ctxfini_bad (mkFixes a b false d e g)) = true)
+    by (destruct a, b, d, e, g; vm_compute; reflexivity).
   apply chk_run in H as (s & Hr & Hb). exists s; split; auto.
   unfold ctxfini_bad in Hb.
   apply andb_prop in Hb as [Hb H4]; apply andb_prop in Hb as [Hb H3]; apply andb_prop in Hb as [H1 H2].
@@ -129,7 +129,7 @@ Proof.
   split.
   - destruct (nth_error (ctxs s) 0) as [x|]; [|discriminate H3]. exists x; split; auto.
     unfold n_list_eqb in H3; destruct (list_eq_dec N.eq_dec (c_pend x) [1%N]); [auto|discriminate H3].
-  - destruct (step (mkFixes a b false d e) s (LRun 2)) as [s'|]; [|discriminate H4]. exists s'; split; auto.
+  - destruct (step (mkFixes a b false d e g) s (LRun 2)) as [s'|]; [|discriminate H4]. exists s'; split; auto.
     unfold nat_list_eqb in H4; destruct (list_eq_dec Nat.eq_dec (bad s') [B_SOCK_FREED]); [auto|discriminate H4].
 Qed.
 
@@ -144,14 +144,14 @@ Definition lateop_bad (fx : fixes) (s : st) : bool :=
   sock_ret R_DESTROY s && k_freed (sk s) && n_list_eqb (k_pend (sk s)) [1%N] &&
   match done s with [] => true | _ => false end && no_step_b fx s.
 
-Lemma lateop_refuted : forall a b c e,
-  exists s, run (mkFixes a b c false e) (init PhProto false false) w_lateop = Some s /\
+Lemma lateop_refuted : forall a b c e g,
+  exists s, run (mkFixes a b c false e g) (init PhProto false false) w_lateop = Some s /\
             In (USockClose, C_OK, R_DESTROY) (rets s) /\ k_freed (sk s) = true /\
-            k_pend (sk s) = [1%N] /\ done s = [] /\ no_internal_step (mkFixes a b c false e) s.
+            k_pend (sk s) = [1%N] /\ done s = [] /\ no_internal_step (mkFixes a b c false e g) s.
 Proof.
-  intros a b c e.
-  assert (H: chk (mkFixes a b c false e) (init PhProto false false) w_lateop (lateop_bad (mkFixes a b c false e)) = true)
-    by (destruct a, b, c, e; vm_compute; reflexivity).
+  intros a b c e g.
+  assert (H: chk (mkFixes a b c false e g) (init PhProto false false) w_lateop (lateop_bad (mkFixes a b c false e g)) = true)
+    by (destruct a, b, c, e, g; vm_compute; reflexivity).
   apply chk_run in H as (s & Hr & Hb). exists s; split; auto.
   unfold lateop_bad in Hb.
   apply andb_prop in Hb as [Hb H5]; apply andb_prop in Hb as [Hb H4]; apply andb_prop in Hb as [Hb H3]; apply andb_prop in Hb as [H1 H2].
@@ -170,20 +170,50 @@ Definition ctxopen_bad (fx : fixes) (s : st) : bool :=
   match nth_error (threads s) 1 with Some (AWaitCtxs :: _) => true | _ => false end &&
   nat_list_eqb (bad s) [] && no_step_b fx s.
 
-Lemma ctxopen_refuted : forall a b c d,
-  exists s, run (mkFixes a b c d false) (init PhFini true true) w_ctxopen = Some s /\
+Lemma ctxopen_refuted : forall a b c d g,
+  exists s, run (mkFixes a b c d false g) (init PhFini true true) w_ctxopen = Some s /\
             (exists r, nth_error (threads s) 1 = Some (AWaitCtxs :: r)) /\
-            bad s = [] /\ no_internal_step (mkFixes a b c d false) s.
+            bad s = [] /\ no_internal_step (mkFixes a b c d false g) s.
 Proof.
-  intros a b c d.
-  assert (H: chk (mkFixes a b c d false) (init PhFini true true) w_ctxopen (ctxopen_bad (mkFixes a b c d false)) = true)
-    by (destruct a, b, c, d; vm_compute; reflexivity).
+  intros a b c d g.
+  assert (H: chk (mkFixes a b c d false g) (init PhFini true true) w_ctxopen (ctxopen_bad (mkFixes a b c d false g)) = true)
+    by (destruct a, b, c, d, g; vm_compute; reflexivity).
   apply chk_run in H as (s & Hr & Hb). exists s; split; auto.
   unfold ctxopen_bad in Hb.
   apply andb_prop in Hb as [Hb H3]; apply andb_prop in Hb as [H1 H2].
   split; [destruct (nth_error (threads s) 1) as [[|[] r]|]; try discriminate H1; eauto|].
   split; [unfold nat_list_eqb in H2; destruct (list_eq_dec Nat.eq_dec (bad s) []); [auto|discriminate H2]|].
   apply no_step_b_sound; auto.
+Qed.
+
+(* fx_ctxmark = false: sock_shutdown marks only the idle contexts closed.  A context call of another thread
+   sits between nni_ctx_find (c_ref++) and nni_ctx_rele when the closer walks s_ctxs: the context is left
+   unmarked, its last release does nothing, it stays on s_ctxs and the closer waits for ever. *)
+Definition w_ctxmark : list label :=
+  [LSpawn UCtxOpen] ++ runs 0 6 ++ [LSpawn (UGetCtx 0); LSpawn USockClose] ++ runs 1 1 ++ runs 2 6 ++ runs 1 2.
+
+Definition ctxmark_bad (fx : fixes) (s : st) : bool :=
+  match nth_error (threads s) 2 with Some (AWaitCtxs :: _) => true | _ => false end &&
+  nat_list_eqb (bad s) [] && no_step_b fx s &&
+  match nth_error (ctxs s) 0 with Some x => negb (c_closed x) && negb (k_closed (sk s)) && c_inmap x && (c_ref x =? 0) | None => false end.
+
+Lemma ctxmark_refuted : forall a b c d e,
+  exists s, run (mkFixes a b c d e false) (init PhFini true true) w_ctxmark = Some s /\
+            (exists r, nth_error (threads s) 2 = Some (AWaitCtxs :: r)) /\
+            bad s = [] /\ no_internal_step (mkFixes a b c d e false) s /\ find_ctx s 0 = None.
+Proof.
+  intros a b c d e.
+  assert (H: chk (mkFixes a b c d e false) (init PhFini true true) w_ctxmark (ctxmark_bad (mkFixes a b c d e false)) = true)
+    by (destruct a, b, c, d, e; vm_compute; reflexivity).
+  apply chk_run in H as (s & Hr & Hb). exists s; split; auto.
+  unfold ctxmark_bad in Hb.
+  apply andb_prop in Hb as [Hb H4]; apply andb_prop in Hb as [Hb H3]; apply andb_prop in Hb as [H1 H2].
+  split; [destruct (nth_error (threads s) 2) as [[|[] r]|]; try discriminate H1; eauto|].
+  split; [unfold nat_list_eqb in H2; destruct (list_eq_dec Nat.eq_dec (bad s) []); [auto|discriminate H2]|].
+  split; [apply no_step_b_sound; auto|].
+  unfold find_ctx. destruct (nth_error (ctxs s) 0) as [x|]; [|discriminate H4].
+  apply andb_prop in H4 as [H4 _]; apply andb_prop in H4 as [H4 Hm]; apply andb_prop in H4 as [Hc Hk].
+  rewrite Hm. destruct (c_closed x); [discriminate Hc|]. destruct (k_closed (sk s)); [discriminate Hk|]. reflexivity.
 Qed.
 
 (* pipes, every repair applied: nng_pipe_close only marks the pipe and queues it for the reaper; when
